@@ -13,8 +13,11 @@
 #include <cstdlib>
 #include <string>
 #include <atomic>
+#include <condition_variable>
+#include <mutex>
 
 namespace vclock {
+bool dns_wait_gate();
 static std::atomic<int64_t> g_now_ns{BASE_NS};
 int64_t now_ns() { return g_now_ns.load(std::memory_order_relaxed); }
 void set_ns(int64_t t) { g_now_ns.store(t, std::memory_order_relaxed); }
@@ -25,6 +28,22 @@ static std::atomic<uint32_t> g_dns_two_addr_mask{0}; // bit i set: host b<i> res
 static std::atomic<int> g_dns_lookups{0};
 void dns_config(uint32_t fail_mask, uint32_t two_addr_mask) { g_dns_fail_mask = fail_mask; g_dns_two_addr_mask = two_addr_mask; g_dns_lookups = 0; }
 int dns_lookups() { return g_dns_lookups.load(); }
+
+static std::mutex g_gate_mx; static std::condition_variable g_gate_cv; static bool g_gate_on = false; static int g_gate_pending = 0, g_gate_tickets = 0; static bool g_gate_fail_next = false;
+void dns_gate(bool on) { std::lock_guard<std::mutex> l(g_gate_mx); g_gate_on = on; g_gate_pending = 0; g_gate_tickets = 0; g_gate_fail_next = false; }
+int dns_pending() { std::lock_guard<std::mutex> l(g_gate_mx); return g_gate_tickets > 0 ? 0 : g_gate_pending; }   // parked lookups with no release on its way
+void dns_release(bool fail) { { std::lock_guard<std::mutex> l(g_gate_mx); g_gate_tickets++; g_gate_fail_next = fail; } g_gate_cv.notify_all(); }
+void dns_release_all() { { std::lock_guard<std::mutex> l(g_gate_mx); g_gate_on = false; g_gate_tickets += 1000; } g_gate_cv.notify_all(); }
+// called by getaddrinfo; returns true if this lookup has to fail
+bool dns_wait_gate() {
+    std::unique_lock<std::mutex> l(g_gate_mx);
+    if (!g_gate_on) return false;
+    g_gate_pending++;
+    g_gate_cv.wait(l, [] { return g_gate_tickets > 0 || !g_gate_on; });
+    if (g_gate_tickets > 0) g_gate_tickets--;
+    g_gate_pending--;
+    bool f = g_gate_fail_next; g_gate_fail_next = false; return f;
+}
 }
 
 namespace std { namespace chrono { inline namespace _V2 {
@@ -46,6 +65,7 @@ extern "C" time_t time(time_t* t) noexcept {
 extern "C" int getaddrinfo(const char* node, const char* service, const struct addrinfo* hints, struct addrinfo** res) {
     (void)hints;
     vclock::g_dns_lookups++;
+    if (vclock::dns_wait_gate()) return EAI_AGAIN;
     if (!node || node[0] != 'b' || node[1] < '0' || node[1] > '9' || node[2] != 0) return EAI_NONAME;
     int i = node[1] - '0';
     if (vclock::g_dns_fail_mask.load() & (1u << i)) return EAI_NONAME;
